@@ -48,6 +48,7 @@ LibStep(w) ==
   \/ \E l \in L : SpinAcq(w, l) \/ SpinRel(w, l)
   \/ \E c \in D, l \in L, f \in {0, 1} : DescAlloc(w, w, c, l, f)
   \/ \E s \in S, k \in {0, 1, 2} : StackAlloc(w, w, s, 2 * s, 2 * s + 1, k, IF k = 2 THEN 17 ELSE 0)
+  \/ \E c \in D, kind \in {0, 1} : MkCtx(w, c, kind, 1)
   \/ \E p, c \in D, s \in S, det \in {0, 1} : CreateCF(w, p, c, s, det, 0) \/ CreatePF(w, p, c, s, det, 0)
   \/ \E pt, ct \in Tag : UCreateRet(w, pt, ct) \/ UJoinRet(w, pt, ct, tg[ct].endv, tg[ct].cell) \/ UDetachRet(w, pt, ct)
                           \/ (\E rc \in {0, 16} : UTryJoinRet(w, pt, ct, rc, tg[ct].endv, tg[ct].cell))
